@@ -823,7 +823,17 @@ bus_client_policy_optimize (BusClientPolicy *policy)
             rule->d.send.interface == NULL &&
             rule->d.send.member == NULL &&
             rule->d.send.error == NULL &&
-            rule->d.send.destination == NULL;
+            rule->d.send.destination == NULL &&
+            /* ... and only if none of the modifiers makes it selective:
+             * an allow rule matches everything only with eavesdrop="true"
+             * and send_requested_reply="false", a deny rule only with
+             * eavesdrop="false" and send_requested_reply="true" */
+            rule->d.send.broadcast == BUS_POLICY_TRISTATE_ANY &&
+            rule->d.send.min_fds == 0 &&
+            rule->d.send.max_fds >= DBUS_MAXIMUM_MESSAGE_UNIX_FDS &&
+            (rule->allow ?
+             (rule->d.send.eavesdrop && !rule->d.send.requested_reply) :
+             (!rule->d.send.eavesdrop && rule->d.send.requested_reply));
           break;
         case BUS_POLICY_RULE_RECEIVE:
           remove_preceding =
@@ -832,7 +842,12 @@ bus_client_policy_optimize (BusClientPolicy *policy)
             rule->d.receive.interface == NULL &&
             rule->d.receive.member == NULL &&
             rule->d.receive.error == NULL &&
-            rule->d.receive.origin == NULL;
+            rule->d.receive.origin == NULL &&
+            rule->d.receive.min_fds == 0 &&
+            rule->d.receive.max_fds >= DBUS_MAXIMUM_MESSAGE_UNIX_FDS &&
+            (rule->allow ?
+             (rule->d.receive.eavesdrop && !rule->d.receive.requested_reply) :
+             (!rule->d.receive.eavesdrop && rule->d.receive.requested_reply));
           break;
         case BUS_POLICY_RULE_OWN:
           remove_preceding =
